@@ -234,8 +234,11 @@ func c12AllCells() []c12Cell {
 					continue
 				}
 				for _, how := range c12Hows {
-					for _, kind := range []string{"fresh", "clone", "changed"} {
+					for _, kind := range []string{"fresh", "clone", "changed", "changed-same"} {
 						for _, custom := range []string{"none", "dialtls", "handshake"} {
+							if kind == "changed-same" && custom != "none" {
+								continue
+							}
 							if custom != "none" && (tc.mtls || force == "3" || tc.insecure || tc.serverName != "" ||
 								!(how == "helpers-string" || how == "SetTLSClientConfig")) {
 								continue // the custom functions bypass the client's TLS settings: a reduced TLS dimension suffices
@@ -245,6 +248,9 @@ func c12AllCells() []c12Cell {
 								h3ons = []bool{false, true}
 							}
 							for _, h3on := range h3ons {
+								if kind == "changed-same" && h3on && offer == "alt" {
+									continue // the first request would learn Alt-Svc: that sequence is lane c12seq's
+								}
 								cell := c12Cell{force: force, h3on: h3on, offer: offer, tls: tc, how: how, kind: kind, custom: custom, scheme: "https"}
 								if custom == "none" {
 									out = append(out, cell)
@@ -682,6 +688,49 @@ func c12RunCell(w *c12World, cell c12Cell, dir string) []c12Step {
 		}
 		target(c)
 	}
+	if cell.kind == "changed-same" {
+		// "settings changed after first use", same host, same stack: phase 1 makes (or fails to
+		// make) a connection of the SAME forced version to the SAME origin under the opposite
+		// verdict; the settings are then changed — in place for the helpers and the accessor
+		// route, by replacement for SetTLSClientConfig — every pooled connection is closed, and the
+		// request judged is the one that needs a NEW connection.
+		c = newClient()
+		first := c12TLS{name: "phase1-default"}
+		if !cell.tls.accept() {
+			first = c12TLS{name: "phase1-insecure", insecure: true, cert: "ok"}
+		}
+		if cell.h3on {
+			c.EnableHTTP3()
+		}
+		c12ForceApply(c, cell.force)
+		firstHow := "helpers-string"
+		if cell.how == "GetTLSClientConfig-mutation" || cell.how == "SetTLSClientConfig" {
+			firstHow = cell.how // accessor first, accessor later / replaced pointer first, replaced later
+		}
+		c12ApplyTLS(c, first, firstHow, dir)
+		for k := 0; k < 2; k++ { // twice: a failed first dial must not poison the second either
+			ctx, cancel := context.WithTimeout(context.Background(), 3*time.Second)
+			if (cell.force == "3") && !o.offer.h3 {
+				cancel()
+				ctx, cancel = context.WithTimeout(context.Background(), 300*time.Millisecond)
+			}
+			verifh.Safely(func() { c.R().SetContext(ctx).Get(o.url(cell.scheme, fmt.Sprintf("/c%d/phase1", id))) })
+			cancel()
+		}
+		if cell.how == "helpers-string" || cell.how == "helpers-file" {
+			c.GetTLSClientConfig().Certificates = nil
+			c.GetTLSClientConfig().RootCAs = nil
+		}
+		c12ApplyTLS(c, cell.tls, cell.how, dir)
+		// force a new connection on every stack (a stream may still be winding down: twice)
+		for k := 0; k < 2; k++ {
+			time.Sleep(20 * time.Millisecond)
+			c.GetTransport().CloseIdleConnections()
+		}
+		if t3 := c.GetTransport().t3; t3 != nil {
+			t3.Close()
+		}
+	}
 	st := c12ReqState{}
 	path := fmt.Sprintf("/c%d/s0", id)
 	s0 := c12Request(c, o, cell, cell.force, h3, cell.tls, protos, rec, st, path, &tcpDials)
@@ -786,7 +835,7 @@ func c12RunParallel(w *c12World, cells []c12Cell, dir string, workers int) [][]c
 // judged by the Go-side property oracle.
 func TestVerif_C12_e2e(t *testing.T) {
 	s := verifh.New(t, "C12", "c12e2e",
-		"matrix {force h1,h2,h3,none (+EnableHTTP3)} x origin {h1-only TLS, h2+h1 ALPN, TLS without ALPN, h2+h1+h3, h1+h3, h2+h1+h3+Alt-Svc, client-cert-requiring h2+h1+h3, clear-text h1, h2c} x TLS {default roots, private root, wrong root, InsecureSkipVerify, insecure+wrong root, ServerName override ok/mismatch, client cert ok/none/wrong CA/insecure} x how {SetRootCertFromString, SetRootCertsFromFile, SetTLSClientConfig with/without NextProtos, GetTLSClientConfig mutation} x {fresh, clone, settings+force changed after a first request} x {none, SetDialTLS, SetTLSHandshake (own trust good/wrong, own ALPN)} + websocket-upgrade requests + h2c on/off; quick = greedy pairwise-covering subset topped up with seeded random cells, thorough = full product; per request: Response.Proto, protocol/SNI/client certificate seen by the origin, error kind; non-trivial = every request (distinct by model line)")
+		"matrix {force h1,h2,h3,none (+EnableHTTP3)} x origin {h1-only TLS, h2+h1 ALPN, TLS without ALPN, h2+h1+h3, h1+h3, h2+h1+h3+Alt-Svc, client-cert-requiring h2+h1+h3, clear-text h1, h2c} x TLS {default roots, private root, wrong root, InsecureSkipVerify, insecure+wrong root, ServerName override ok/mismatch, client cert ok/none/wrong CA/insecure} x how {SetRootCertFromString, SetRootCertsFromFile, SetTLSClientConfig with/without NextProtos, GetTLSClientConfig mutation} x {fresh, clone, settings+force changed after a first request to a twin origin, settings changed (in place / replaced) after two first requests of the same version to the SAME origin followed by CloseIdleConnections} x {none, SetDialTLS, SetTLSHandshake (own trust good/wrong, own ALPN)} + websocket-upgrade requests + h2c on/off; quick = greedy pairwise-covering subset topped up with seeded random cells, thorough = full product; per request: Response.Proto, protocol/SNI/client certificate seen by the origin, error kind; non-trivial = every request (distinct by model line)")
 	w, err := c12StartWorld()
 	if err != nil {
 		t.Fatalf("infrastructure: %v", err)
@@ -828,7 +877,7 @@ func TestVerif_C12_e2e(t *testing.T) {
 			s.Case(st.line, st.impl, st.propOK, st.class, true, human)
 		}
 	}
-	for _, must := range []string{"impl:ok:h1", "impl:ok:h2", "impl:ok:h3", "impl:err:tls", "impl:err:other", "kind=clone", "kind=changed", "custom=dialtls", "custom=handshake", "offer=alt", "offer=mtls", "offer=h2c", "force=3"} {
+	for _, must := range []string{"impl:ok:h1", "impl:ok:h2", "impl:ok:h3", "impl:err:tls", "impl:err:other", "kind=clone", "kind=changed", "kind=changed-same", "custom=dialtls", "custom=handshake", "offer=alt", "offer=mtls", "offer=h2c", "force=3"} {
 		if c12Hist[s][must] == 0 && !(must == "impl:ok:h3" && c12Hist[s]["impl:err:tls"] > 0) {
 			t.Errorf("matrix never reached bucket %q", must)
 		}
@@ -842,7 +891,7 @@ func TestVerif_C12_e2e(t *testing.T) {
 // to what the settings say.
 func TestVerif_C12_uniform(t *testing.T) {
 	s := verifh.New(t, "C12", "c12uniform",
-		"for every TLS setting (11 cells) x way of setting (5) x {fresh, clone, changed after first use}: force h1, h2, h3 against one origin offering all three (client-cert-requiring origin for the mTLS cells); oracle: same accept/reject, same SNI and same client certificate at the origin on all three stacks, and accept iff the certificate is acceptable under the settings; quick = seeded third of the product")
+		"for every TLS setting (11 cells) x way of setting (5) x {fresh, clone, changed after first use on a twin origin, changed IN PLACE after connections of the same version to the SAME origin then all pooled connections closed}: force h1, h2, h3 against one origin offering all three (client-cert-requiring origin for the mTLS cells); oracle: same accept/reject, same SNI and same client certificate at the origin on all three stacks, and accept iff the certificate is acceptable under the settings; quick = seeded third of the product")
 	w, err := c12StartWorld()
 	if err != nil {
 		t.Fatalf("infrastructure: %v", err)
@@ -858,7 +907,7 @@ func TestVerif_C12_uniform(t *testing.T) {
 	var combos []combo
 	for _, tc := range c12TLSCells {
 		for _, how := range c12Hows {
-			for _, kind := range []string{"fresh", "clone", "changed"} {
+			for _, kind := range []string{"fresh", "clone", "changed", "changed-same"} {
 				combos = append(combos, combo{tc, how, kind})
 			}
 		}
@@ -870,8 +919,11 @@ func TestVerif_C12_uniform(t *testing.T) {
 		per := map[string]int{}
 		var keep []combo
 		for _, c := range combos {
-			if per[c.tc.name] < 5 {
+			if per[c.tc.name] < 5 || (c.kind == "changed-same" && per[c.tc.name+"/same"] < 2) {
 				per[c.tc.name]++
+				if c.kind == "changed-same" {
+					per[c.tc.name+"/same"]++
+				}
 				keep = append(keep, c)
 			}
 		}
